@@ -18,6 +18,8 @@ package c06
 //	                   recipient or a low gas limit
 //	erc20_transfer, erc20_burn
 //	                   EVM tx calling the ERC20 itself (user transfers, donations to the module, burns)
+//	seq                two ops in ONE transaction: two calls made by the forwarder in one EVM tx, or two
+//	                   messages of one signer in one Cosmos tx (both take effect or neither)
 //
 // Observables after EVERY transaction: accepted?; every FunToken mapping (ERC20 id, denom,
 // IsMadeFromCoin) with ERC20 totalSupply, ERC20 balanceOf(EVM module), bank supply(denom), bank
@@ -74,6 +76,7 @@ type c06Op struct {
 	Frame string    `json:"frame,omitempty"`  // "" (direct from the EOA) | plain | revert_top | inner_revert | swallow | once_then_reverted
 	BadTo bool      `json:"bad_to,omitempty"` // unparsable recipient string
 	Gas   uint64    `json:"gas,omitempty"`    // explicit (low) gas limit
+	Ops   []c06Op   `json:"ops,omitempty"`    // seq: two ops in ONE transaction (both or nothing)
 }
 
 type mapObs struct {
@@ -102,10 +105,12 @@ type stepObs struct {
 //	0 call target(payload), revert iff it failed     1 call target(payload), then REVERT
 //	2 self-call with mode 1, ignore the result, STOP  3 call target(payload), ignore failure, STOP
 //	5 call target(payload) (must succeed), then self-call with mode 1, STOP
-var fwdInit = mustHex("6087600c60003960876000f3" +
-	"60003560f81c8060021461005a57806005146100755761001d61003a565b81600114610032578160031461003857610038575b60006000fd5b005b" +
-	"6015360380601560003760006000826000600060013560601c5af1905090565b3660006000376001600053600060003660006000305af15050005b" +
-	"61007d61003a565b156100325761005a56")
+//	6 calldata = 6 ‖ target1 ‖ len1(2) ‖ payload1 ‖ target2 ‖ payload2: both calls must succeed, else REVERT
+var fwdInit = mustHex("60d7600c60003960d76000f3" +
+	"60003560f81c80600214610062578060051461007d578060061461008f57610025610042565b8160011461003a578160031461004057610040575b" +
+	"60006000fd5b005b6015360380601560003760006000826000600060013560601c5af1905090565b3660006000376001600053600060003660006000" +
+	"305af15050005b610085610042565b1561003a57610062565b60153560f01c80601760003760006000826000600060013560601c5af11561003a5760" +
+	"1701806014018036038082600037600060008260006000873560601c5af11561003a5700")
 
 func mustHex(s string) []byte {
 	b, err := hex.DecodeString(s)
@@ -305,14 +310,65 @@ func (w *world) evmOp(op c06Op, target gethcommon.Address, payload []byte) bool 
 	return w.ethTx(0, &w.fwd, data, op.Gas)
 }
 
+// cosmosMsg builds the sdk.Msg of a Cosmos-side op (nil for other kinds).
+func (w *world) cosmosMsg(op c06Op) sdk.Msg {
+	switch op.K {
+	case "create_coin":
+		return &evm.MsgCreateFunToken{FromBankDenom: w.denom(op.D), Sender: w.nibi(op.A).String()}
+	case "create_erc20":
+		return &evm.MsgCreateFunToken{FromErc20: &eth.EIP55Addr{Address: w.tokAddr(op.T)}, Sender: w.nibi(op.A).String()}
+	case "convert":
+		x, ok := parseAmt(op.X)
+		if !ok {
+			return nil
+		}
+		return &evm.MsgConvertCoinToEvm{
+			Sender: w.nibi(op.A).String(), BankCoin: sdk.Coin{Denom: w.denom(op.D), Amount: sdkmath.NewIntFromBigInt(x)},
+			ToEthAddr: eth.EIP55Addr{Address: w.addr(op.To)},
+		}
+	}
+	return nil
+}
+
+// encode builds (target, calldata) of an EVM-side op.
+func (w *world) encode(op c06Op) (gethcommon.Address, []byte, bool) {
+	x, okx := parseAmt(op.X)
+	if !okx || x.Sign() < 0 {
+		return gethcommon.Address{}, nil, false
+	}
+	abiFT := embeds.SmartContract_FunToken.ABI
+	abiERC := embeds.SmartContract_ERC20MinterWithMetadataUpdates.ABI
+	var in []byte
+	var err error
+	target := precompile.PrecompileAddr_FunToken
+	switch op.K {
+	case "send_to_bank":
+		in, err = abiFT.Pack("sendToBank", w.tokAddr(op.T), x, w.toStr(op))
+	case "send_to_evm":
+		in, err = abiFT.Pack("sendToEvm", w.denom(op.D), x, w.toStr(op))
+	case "bank_msg_send":
+		in, err = abiFT.Pack("bankMsgSend", w.toStr(op), w.denom(op.D), x)
+	case "erc20_transfer":
+		target = w.tokAddr(op.T)
+		in, err = abiERC.Pack("transfer", w.addr(op.To), x)
+	case "erc20_burn":
+		target = w.tokAddr(op.T)
+		in, err = abiERC.Pack("burn", x)
+	default:
+		return target, nil, false
+	}
+	if err != nil {
+		panic(err)
+	}
+	return target, in, true
+}
+
 func (w *world) run(op c06Op) bool {
 	c := w.c
 	x, okx := parseAmt(op.X)
 	if !okx {
 		return false
 	}
-	abiFT := embeds.SmartContract_FunToken.ABI
-	abiERC := embeds.SmartContract_ERC20MinterWithMetadataUpdates.ABI
 	switch op.K {
 	case "fund":
 		if op.D == nil || op.D.K != "c" || x.Sign() < 0 {
@@ -365,69 +421,40 @@ func (w *world) run(op c06Op) bool {
 		}
 		w.toks = append(w.toks, crypto.CreateAddress(w.eoa[op.A-1].EthAddr, n))
 		return true
-	case "create_coin":
+	case "create_coin", "create_erc20", "convert":
 		if op.A != 3 && op.A != 4 {
 			return false
 		}
-		return w.cosmosTx(op.A-3, &evm.MsgCreateFunToken{FromBankDenom: w.denom(op.D), Sender: w.nibi(op.A).String()})
-	case "create_erc20":
-		if op.A != 3 && op.A != 4 {
+		return w.cosmosTx(op.A-3, w.cosmosMsg(op))
+	case "send_to_bank", "send_to_evm", "bank_msg_send", "erc20_transfer", "erc20_burn":
+		target, in, ok := w.encode(op)
+		if !ok {
 			return false
 		}
-		return w.cosmosTx(op.A-3, &evm.MsgCreateFunToken{FromErc20: &eth.EIP55Addr{Address: w.tokAddr(op.T)}, Sender: w.nibi(op.A).String()})
-	case "convert":
-		if op.A != 3 && op.A != 4 {
+		return w.evmOp(op, target, in)
+	case "seq":
+		if len(op.Ops) != 2 {
 			return false
 		}
-		return w.cosmosTx(op.A-3, &evm.MsgConvertCoinToEvm{
-			Sender: w.nibi(op.A).String(), BankCoin: sdk.Coin{Denom: w.denom(op.D), Amount: sdkmath.NewIntFromBigInt(x)},
-			ToEthAddr: eth.EIP55Addr{Address: w.addr(op.To)},
-		})
-	case "send_to_bank":
-		if x.Sign() < 0 {
+		a, b := op.Ops[0], op.Ops[1]
+		if ma, mb := w.cosmosMsg(a), w.cosmosMsg(b); ma != nil && mb != nil {
+			if a.A != b.A || (a.A != 3 && a.A != 4) {
+				return false
+			}
+			r := w.c.DeliverCosmos(w.cos[a.A-3], 12_000_000, Unibi(2_000_000), ma, mb)
+			return r.Code == 0
+		}
+		t1, p1, ok1 := w.encode(a)
+		t2, p2, ok2 := w.encode(b)
+		if !ok1 || !ok2 || a.A != 5 || b.A != 5 || len(p1) > 0xffff {
 			return false
 		}
-		in, err := abiFT.Pack("sendToBank", w.tokAddr(op.T), x, w.toStr(op))
-		if err != nil {
-			panic(err)
-		}
-		return w.evmOp(op, precompile.PrecompileAddr_FunToken, in)
-	case "send_to_evm":
-		if x.Sign() < 0 {
-			return false
-		}
-		in, err := abiFT.Pack("sendToEvm", w.denom(op.D), x, w.toStr(op))
-		if err != nil {
-			panic(err)
-		}
-		return w.evmOp(op, precompile.PrecompileAddr_FunToken, in)
-	case "bank_msg_send":
-		if x.Sign() < 0 {
-			return false
-		}
-		in, err := abiFT.Pack("bankMsgSend", w.toStr(op), w.denom(op.D), x)
-		if err != nil {
-			panic(err)
-		}
-		return w.evmOp(op, precompile.PrecompileAddr_FunToken, in)
-	case "erc20_transfer":
-		if x.Sign() < 0 {
-			return false
-		}
-		in, err := abiERC.Pack("transfer", w.addr(op.To), x)
-		if err != nil {
-			panic(err)
-		}
-		return w.evmOp(op, w.tokAddr(op.T), in)
-	case "erc20_burn":
-		if x.Sign() < 0 {
-			return false
-		}
-		in, err := abiERC.Pack("burn", x)
-		if err != nil {
-			panic(err)
-		}
-		return w.evmOp(op, w.tokAddr(op.T), in)
+		data := append([]byte{6}, t1.Bytes()...)
+		data = append(data, byte(len(p1)>>8), byte(len(p1)))
+		data = append(data, p1...)
+		data = append(data, t2.Bytes()...)
+		data = append(data, p2...)
+		return w.ethTx(0, &w.fwd, data, 0)
 	}
 	return false
 }
@@ -485,6 +512,9 @@ func (w *world) observe(op c06Op, ok bool) stepObs {
 	})
 	// the token / denom this op names, completed through the registry
 	tt, td := -1, (*denomRef)(nil)
+	if op.K == "seq" && len(op.Ops) == 2 {
+		op = op.Ops[1]
+	}
 	switch op.K {
 	case "deploy":
 		if ok {
@@ -732,7 +762,17 @@ func feeCut(kind string, x int64) int64 {
 
 func (g *gen) push(op c06Op) {
 	g.ops = append(g.ops, op)
-	// shadow bookkeeping (approximate: assumes well-formed, funded ops succeed)
+	g.note(op)
+}
+
+// note: shadow bookkeeping (approximate: assumes well-formed, funded ops succeed)
+func (g *gen) note(op c06Op) {
+	if op.K == "seq" {
+		for _, sub := range op.Ops {
+			g.note(sub)
+		}
+		return
+	}
 	x, _ := strconv.ParseInt(op.X, 10, 64)
 	effective := !op.BadTo && op.Gas == 0 && (op.Frame == "" || op.Frame == "plain" || op.Frame == "swallow" || op.Frame == "once_then_reverted")
 	kindOf := func(t int) string {
@@ -795,7 +835,7 @@ var evmActors = []int{1, 2, 5}
 
 func (g *gen) randomOp() {
 	r := g.r
-	switch r.Pick(6, 7, 15, 18, 15, 6, 13, 5, 3, 2) {
+	switch r.Pick(6, 7, 15, 18, 15, 6, 13, 5, 3, 2, 9) {
 	case 0: // create from coin
 		d := denomRef{K: "c", N: r.Intn(4)}
 		if r.Chance(1, 15) && g.ntok > 0 {
@@ -854,6 +894,94 @@ func (g *gen) randomOp() {
 		g.push(c06Op{K: "fund", A: r.Range(1, 6), D: &denomRef{K: "c", N: r.Intn(3)}, X: strconv.Itoa(r.Range(1, 500))})
 	case 9:
 		g.push(c06Op{K: "deploy", A: r.Range(1, 2), Kind: []string{"std", "fee", "heavy", "false"}[r.Pick(4, 4, 1, 1)]})
+	case 10: // two ops in one transaction
+		g.push(g.seqOp())
+	}
+}
+
+// evmSub: one EVM-side op issued by the forwarder (no frame of its own)
+func (g *gen) evmSub() c06Op {
+	r := g.r
+	five := func(bal func(a int) int64) int64 { return bal(5) }
+	// prefer mappings whose token / coin the forwarder holds
+	heldTok := func() (int, bool) {
+		var c []int
+		for _, m := range g.maps {
+			if g.ebal(m.tok, 5) > 0 {
+				c = append(c, m.tok)
+			}
+		}
+		if len(c) == 0 {
+			return 0, false
+		}
+		return c[r.Intn(len(c))], true
+	}
+	heldDen := func() (*denomRef, bool) {
+		var c []denomRef
+		for _, m := range g.maps {
+			if g.bbal(m.d, 5) > 0 {
+				c = append(c, m.d)
+			}
+		}
+		if len(c) == 0 {
+			return nil, false
+		}
+		d := c[r.Intn(len(c))]
+		return &d, true
+	}
+	switch r.Pick(4, 4, 3, 2) {
+	case 0:
+		t := r.Intn(g.ntok + 1)
+		if ht, ok := heldTok(); ok && !r.Chance(1, 8) {
+			t = ht
+		} else if m, ok := g.pickMap(-1); ok && !r.Chance(1, 10) {
+			t = m.tok
+		}
+		return c06Op{K: "send_to_bank", A: 5, T: t, X: g.amount(five(func(a int) int64 { return g.ebal(t, a) })), To: g.anyTo(), Fmt: g.fmtTo()}
+	case 1:
+		d := g.randDenom()
+		if hd, ok := heldDen(); ok && !r.Chance(1, 8) {
+			d = hd
+		} else if m, ok := g.pickMap(-1); ok && !r.Chance(1, 10) {
+			d = &m.d
+		}
+		return c06Op{K: "send_to_evm", A: 5, D: d, X: g.amount(five(func(a int) int64 { return g.bbal(*d, a) })), To: g.anyTo(), Fmt: g.fmtTo()}
+	case 2:
+		t := r.Intn(g.ntok + 1)
+		return c06Op{K: "erc20_transfer", A: 5, T: t, X: g.amount(five(func(a int) int64 { return g.ebal(t, a) })), To: g.anyTo()}
+	default:
+		d := g.randDenom()
+		if m, ok := g.pickMap(-1); ok && !r.Chance(1, 6) {
+			d = &m.d
+		}
+		return c06Op{K: "bank_msg_send", A: 5, D: d, X: g.amount(five(func(a int) int64 { return g.bbal(*d, a) })), To: g.anyTo(), Fmt: g.fmtTo()}
+	}
+}
+
+func (g *gen) seqOp() c06Op {
+	r := g.r
+	if r.Chance(2, 3) {
+		return c06Op{K: "seq", A: 5, Ops: []c06Op{g.evmSub(), g.evmSub()}}
+	}
+	// two messages of one Cosmos signer in one tx
+	a := r.Range(3, 4)
+	conv := func() c06Op {
+		d := g.randDenom()
+		if m, ok := g.pickMap(-1); ok && !r.Chance(1, 10) {
+			d = &m.d
+		}
+		return c06Op{K: "convert", A: a, D: d, X: g.amount(g.bbal(*d, a)), To: g.anyTo(), Fmt: "hex"}
+	}
+	switch r.Pick(3, 2, 2) {
+	case 0:
+		return c06Op{K: "seq", A: a, Ops: []c06Op{conv(), conv()}}
+	case 1:
+		d := denomRef{K: "c", N: r.Intn(4)}
+		second := conv()
+		second.D = &d
+		return c06Op{K: "seq", A: a, Ops: []c06Op{{K: "create_coin", A: a, D: &d}, second}}
+	default:
+		return c06Op{K: "seq", A: a, Ops: []c06Op{{K: "create_erc20", A: a, T: r.Intn(g.ntok + 1)}, conv()}}
 	}
 }
 
@@ -917,6 +1045,13 @@ func openers() [][]c06Op {
 			{K: "erc20_transfer", A: 1, T: 0, X: "7", To: 0},
 			{K: "send_to_bank", A: 1, T: 0, X: "100000", To: 4, Fmt: "bech32"},
 			{K: "create_erc20", A: 3, T: 0},
+			// one EVM tx: ERC20 transfer (dirty EVM state) then sendToBank; then a pair whose second half fails
+			{K: "seq", A: 5, Ops: []c06Op{{K: "erc20_transfer", A: 5, T: 0, X: "3", To: 2}, {K: "send_to_bank", A: 5, T: 0, X: "4", To: 4, Fmt: "hex"}}},
+			{K: "seq", A: 5, Ops: []c06Op{{K: "send_to_bank", A: 5, T: 0, X: "5", To: 4, Fmt: "hex"}, {K: "send_to_evm", A: 5, D: c0, X: "6", To: 1, Fmt: "bech32"}}},
+			{K: "seq", A: 5, Ops: []c06Op{{K: "send_to_bank", A: 5, T: 0, X: "5", To: 4, Fmt: "hex"}, {K: "send_to_bank", A: 5, T: 0, X: "100000", To: 4, Fmt: "hex"}}},
+			// one Cosmos tx, two messages: the second fails, the first must not stick
+			{K: "seq", A: 3, Ops: []c06Op{{K: "convert", A: 3, D: c0, X: "11", To: 2, Fmt: "hex"}, {K: "convert", A: 3, D: c0, X: "100000", To: 2, Fmt: "hex"}}},
+			{K: "seq", A: 3, Ops: []c06Op{{K: "convert", A: 3, D: c0, X: "11", To: 2, Fmt: "hex"}, {K: "convert", A: 3, D: c0, X: "12", To: 1, Fmt: "hex"}}},
 		}),
 		// fee-on-transfer ERC20-born mapping: credited amount = measured increase
 		cat(pre, []c06Op{
